@@ -285,6 +285,12 @@ class ControlledGate(ComposedGate):
         Raises:
             ValueError: If the core gate is non-standard in OpenQASM 2.0.
         """
+        if any(list(levels) != [1] for levels in self.control_levels):
+            raise ValueError(
+                'Only controls that activate on the |1> level can be'
+                ' written in OpenQASM 2.0; try decomposing the gate.',
+            )
+
         _core_gate = self.gate.qasm_name
         if self.num_controls <= 2:
             _controls = 'c' * self.num_controls
